@@ -92,20 +92,29 @@ def outer_case(ctx, alg, iso, cfg, name):
         # outertan = outersin * inverse(outercos): compared at rational points with kingdon's own sin/cos/inv and with the reference
         vals = {k: gen.small_frac(rng, nonzero=True) for k in ks}
         x = ops.value_mv(alg, ks, vals)
+        # exact reference first: at (or numerically next to) a pole of outertan nothing is compared
+        try:
+            ref = ops.ref_apply(iso, 'outertan', iso.mv_to_ref(x))
+        except ops.NoReference:
+            ctx.count('outertan_poles_skipped')
+            return
+        scale = max([1.0] + [abs(float(v)) for v in ref.values()])
+        if scale > 1e6:
+            ctx.count('outertan_near_poles_skipped')
+            return
         st, out = ctx.guarded(TO, lambda: (x.outertan(), x.outersin() * x.outercos().inv()))
         if st == 'ok':
             ctx.count('outertan_points')
             ctx.case(cid + [[str(v) for v in vals.values()]])
-            t, own = mv_dict(out[0]), mv_dict(out[1])
-            bad = elem_diff(t, own)
-            try:
-                ref = ops.ref_apply(iso, 'outertan', iso.mv_to_ref(x))
-                bad_ref = elem_diff(iso.mv_to_ref(out[0]), ref)
-            except ops.NoReference:
-                bad_ref = []
+            t, own = iso.mv_to_ref(out[0]), iso.mv_to_ref(out[1])
+            tol = 1e-8 * scale
+
+            def differs(a_, b_):
+                return [k for k in set(a_) | set(b_) if abs(complex(a_.get(k, 0)) - complex(b_.get(k, 0))) > tol]
+            bad_ref, bad = differs(t, ref), differs(own, ref)
             if bad or bad_ref:
                 ctx.violation('outertan != outersin * inverse(outercos)', cid, config=cfg, keys=list(ks), values=[str(v) for v in vals.values()],
-                              outertan=show_elem(t), composed=show_elem(own))
+                              outertan=show_elem(t), composed=show_elem(own), reference=show_elem({k: float(v) for k, v in ref.items()}))
         elif st == 'exc':
             ctx.note_raised(out, 'outertan')
 
